@@ -55,6 +55,9 @@ class TargetTaskPriority(Event):
             scope_instance (:class:`.TaskingEngine`): The tasking engine that's being given this
                 :class:`.TargetTaskPriority`.
         """
+        if self.agent_id not in scope_instance.target_indices:
+            # [NOTE]: e.g. the target was removed from the scenario while its priority was still active
+            return
         scope_instance.reward_matrix[
             scope_instance.target_indices[self.agent_id],
             :,
